@@ -266,16 +266,24 @@ inductive Effect where
   | none | add | remove
   deriving DecidableEq, Repr
 
+/-- memdb only: `Seek(from)` finds nothing (the round is not in the ring), so a cancelled SyncChain that has not sent
+anything yet never looks at its context before it reaches `AddCallback` -/
+def Store.seekMisses : Store → Nat → Bool
+  | .mem ms, r => match (Mem.cursorStep ms 0 (.seek r)).2 with | .ok _ => false | .noBeacon => true
+  | .bolt _, _ => false
+
 def Store.isMem : Store → Bool
   | .mem _ => true
   | .bolt _ => false
 
-def effectOf (isMem : Bool) (e : Own) (before after : Strm) : Effect :=
+def effectOf (st : Store) (e : Own) (before after : Strm) : Effect :=
   match e, before.phase, after.phase with
   | .register, .scanned, _ => .add
   | .cancel, .live, _ => .remove
   | .cancel, .scanned, _ => .add            -- AddCallback runs, then ctx.Done removes it again
-  | .cancel, .idle, .done .canceled => if before.frm = 0 && isMem then .add else .none
+  | .cancel, .idle, .done .canceled =>
+    if st.isMem && (before.frm = 0 || st.seekMisses before.frm) then .add else .none
+  | .cancel, .started, .done .canceled => if st.seekMisses before.frm then .add else .none
   | .sendFail, .live, .done .sendError => .remove
   | _, _, _ => .none
 
@@ -287,7 +295,7 @@ def Net.own (h : Handover) (n : Net) (sid : String) (ev : Own) : Net :=
   | none => n
   | some me =>
     let after := ((Sys.step h ⟨n.store, me.s⟩ ev.toEv)).s
-    let eff := effectOf n.store.isMem ev me.s after
+    let eff := effectOf n.store ev me.s after
     { n with streams := n.streams.map fun e =>
         if e.sid == sid then { e with s := after }
         else if e.addr == me.addr then
